@@ -11,67 +11,51 @@ fn mk(present: bool, off: u32) -> Option<XrefEntry> {
 
 /// Xref::merge(older): for every id the newer table's entry wins; ids only the older table has are
 /// added (ISO 32000-1 7.5.6: the most recent cross-reference section takes precedence).
+/// Shape concrete (newer = {1,2,4}, older = {2,3,4}), offsets/kinds symbolic.
 #[kani::proof]
 #[kani::unwind(8)]
 fn c07_xref_merge_newest_wins() {
-    let mut newer = Xref::new(4, XrefType::CrossReferenceTable);
-    let mut older = Xref::new(4, XrefType::CrossReferenceTable);
-    let pn: [bool; 3] = kani::any();
-    let po: [bool; 3] = kani::any();
+    let mut newer = Xref::new(5, XrefType::CrossReferenceTable);
+    let mut older = Xref::new(5, XrefType::CrossReferenceTable);
     let on: [u32; 3] = kani::any();
     let oo: [u32; 3] = kani::any();
-    let free_newer: bool = kani::any();
-    let mut id = 0;
-    while id < 3 {
-        if let Some(e) = mk(pn[id], on[id]) {
-            newer.insert(id as u32 + 1, e);
-        }
-        if let Some(e) = mk(po[id], oo[id]) {
-            older.insert(id as u32 + 1, e);
-        }
-        id += 1;
-    }
-    if free_newer {
-        // the newer revision explicitly lists object 1 (e.g. as compressed): still wins
-        newer.insert(1, XrefEntry::Compressed { container: 9, index: 1 });
-    }
+    let newer4_compressed: bool = kani::any();
+    newer.insert(1, XrefEntry::Normal { offset: on[0], generation: 0 });
+    newer.insert(2, XrefEntry::Normal { offset: on[1], generation: 0 });
+    newer.insert(4, if newer4_compressed { XrefEntry::Compressed { container: on[2], index: 1 } } else { XrefEntry::Free });
+    older.insert(2, XrefEntry::Normal { offset: oo[0], generation: 0 });
+    older.insert(3, XrefEntry::Normal { offset: oo[1], generation: 0 });
+    older.insert(4, XrefEntry::Normal { offset: oo[2], generation: 0 });
     newer.merge(older);
-    let mut id = 0;
-    while id < 3 {
-        let got = newer.get(id as u32 + 1);
-        if id == 0 && free_newer {
-            assert!(matches!(got, Some(XrefEntry::Compressed { container: 9, index: 1 })), "newer entry replaced by older one");
-        } else if pn[id] {
-            assert!(matches!(got, Some(XrefEntry::Normal { offset, .. }) if *offset == on[id]), "newer entry replaced by older one");
-        } else if po[id] {
-            assert!(matches!(got, Some(XrefEntry::Normal { offset, .. }) if *offset == oo[id]), "entry only present in the older table was not added");
-        } else {
-            assert!(got.is_none(), "entry invented by merge");
-        }
-        id += 1;
+    assert!(matches!(newer.get(1), Some(XrefEntry::Normal { offset, .. }) if *offset == on[0]), "entry of the newer table lost");
+    assert!(matches!(newer.get(2), Some(XrefEntry::Normal { offset, .. }) if *offset == on[1]), "newer entry replaced by older one");
+    assert!(matches!(newer.get(3), Some(XrefEntry::Normal { offset, .. }) if *offset == oo[1]), "entry only present in the older table was not added");
+    if newer4_compressed {
+        assert!(matches!(newer.get(4), Some(XrefEntry::Compressed { container, index: 1 }) if *container == on[2]), "newer compressed entry replaced by older one");
+    } else {
+        assert!(matches!(newer.get(4), Some(XrefEntry::Free)), "newer free entry replaced by older one");
     }
-    kani::cover!(pn[0] && po[0] && !pn[1] && po[1]);
+    assert!(newer.get(5).is_none());
+    kani::cover!(on[1] != oo[0]);
     std::mem::forget(newer);
 }
 
 #[kani::proof]
 #[kani::unwind(8)]
 fn c02_xref_max_id() {
-    let p: [bool; 4] = kani::any();
+    let ids: [u32; 3] = kani::any();
     let mut x = Xref::new(0, XrefType::CrossReferenceTable);
-    let ids = [3u32, 7, 2, 5];
+    assert!(x.max_id() == 0);
     let mut i = 0;
     let mut m = 0u32;
-    while i < 4 {
-        if p[i] {
-            x.insert(ids[i], XrefEntry::Free);
-            if ids[i] > m {
-                m = ids[i];
-            }
+    while i < 3 {
+        x.insert(ids[i], XrefEntry::Free);
+        if ids[i] > m {
+            m = ids[i];
         }
         i += 1;
     }
     assert!(x.max_id() == m);
-    kani::cover!(p[1] && p[3]);
+    kani::cover!(ids[0] > ids[1] && ids[1] > ids[2]);
     std::mem::forget(x);
 }
